@@ -16,7 +16,9 @@ EXPLANATION = ('Completeness is a numerical statement about eight closed-form br
 EXPLANATION += (' (R02.4) sibling agreement: theta1..theta5 of the 5-DOF and the 6-DOF solver are the same terms, row by row; (R02.5) the '
                 'positional columns theta1..theta3 of all four shoulder/elbow branches equal, as polynomials over opaque function atoms, the '
                 'published OPW closed form (Brandstoetter et al. 2014, eqs. for theta1_i/ii, theta2_i..iv, theta3_i..iv) written over the wrist '
-                'centre (cx, cy, cz) and the parameters - this is where the lateral offset b enters, which no bundled test exercises; (R02.6) no early '
+                'centre (cx, cy, cz) and the parameters - this is where the lateral offset b enters, which no bundled test exercises; (R02.7) the wrist columns theta4..theta6 of the four '
+                'shoulder/elbow branches equal the published closed form over the entries of the requested rotation matrix and the own theta1..theta3 of the '
+                'branch (a slip made uniformly in all branches and in both solvers passes R02.3 and R02.4); (R02.6) no early '
                 'exit: every value an internal solver returns is the vector that collects the verified candidates (a reachability pre-check that '
                 'returns an empty answer looks at one shoulder branch only and drops the answers of the other).')
 NOT_DECIDED = 'that each non-singular configuration lies on one of the branches within tolerance; absence of duplicates; equal answer-set size (all numerical)'
@@ -152,8 +154,42 @@ def check_single_exit(ctx, b, rule):
               found=str([x[1] for x in bad]), detail='%d return values' % len(rvs))
 
 
+def spec_orientation(E, th1, th2, th3):
+    """theta4, theta5, theta6 of one shoulder/elbow branch as in the OPW paper, over the entries E[(i, j)] of the requested
+    rotation matrix and the branch's own theta1..theta3 (the wrist-flipped rows follow from R02.2)"""
+    add, sub, mul = (lambda x, y: _b('Add', x, y)), (lambda x, y: _b('Sub', x, y)), (lambda x, y: _b('Mul', x, y))
+    neg = lambda x: ('un', 'Neg', x)
+    K = lambda v: ('const', 'f64', float(v))
+    s1, c1 = _call('sin', th1), _call('cos', th1)
+    s23, c23 = _call('sin', add(th2, th3)), _call('cos', add(th2, th3))
+    m = add(add(mul(mul(E[(0, 2)], s23), c1), mul(mul(E[(1, 2)], s23), s1)), mul(E[(2, 2)], c23))
+    th5 = _call('atan2', _call('sqrt', sub(K(1.0), mul(m, m))), m)
+    th4 = _call('atan2', sub(mul(E[(1, 2)], c1), mul(E[(0, 2)], s1)),
+                sub(add(mul(mul(E[(0, 2)], c23), c1), mul(mul(E[(1, 2)], c23), s1)), mul(E[(2, 2)], s23)))
+    th6 = _call('atan2', add(add(mul(mul(E[(0, 1)], s23), c1), mul(mul(E[(1, 1)], s23), s1)), mul(E[(2, 1)], c23)),
+                sub(sub(mul(mul(neg(E[(0, 0)]), s23), c1), mul(mul(E[(1, 0)], s23), s1)), mul(E[(2, 0)], c23)))
+    return th4, th5, th6
+
+
+def _matrix_entries(rows):
+    """{(i, j): term} of the entries `matrix[(i, j)]` the wrist columns of the candidate table read; None unless they all index one matrix"""
+    E = {}
+    base = set()
+    for x in mir.subterms(('x',) + tuple(rows), lambda y: y[0] == 'call' and cname(y[1]).split('::')[-1] == 'index' and len(y) == 4):
+        ix = strip(x[3])
+        if isinstance(ix, tuple) and ix[0] == 'agg' and len(ix) == 4:
+            i, j = util.const_val(ix[2]), util.const_val(ix[3])
+            if isinstance(i, int) and isinstance(j, int):
+                E[(i, j)] = x
+                base.add(strip(x[2]))
+    if len(base) != 1:
+        return None
+    return E
+
+
 def run(ctx):
     prog = ctx.prog
+    ctx.rule('R02.7', 'theta4..theta6 of the four shoulder/elbow branches equal the published OPW closed form over the entries of the requested rotation matrix and the branch\'s own theta1..theta3')
     ctx.rule('R02.6', 'no early exit: every value an internal solver returns is the vector that collects the verified candidates')
     ctx.rule('R02.4', 'theta1..theta5 of the 5-DOF solver equal the first five columns of the 6-DOF candidate table (sibling agreement)')
     ctx.rule('R02.5', 'theta1..theta3 of the four positional branches equal the published OPW closed form over the wrist centre and the parameters (ring normal form over function atoms)')
@@ -240,6 +276,25 @@ def run(ctx):
                 ok = (rg.nf(algebra.canon(spec[k][c])) - rg.nf(t[k][c])).is_zero()
                 ctx.check(ok, 'R02.5', '%s/theta%d/branch%d' % (name, c + 1, k), b.where(0), b.path,
                           'theta%d of branch %d is not the OPW closed form' % (c + 1, k), found=show(t[k][c], maxdepth=5), expected=show(spec[k][c], maxdepth=5), detail='equals the published formula')
+        # ---- R02.7 orientation closed form (the 5-DOF solver has no theta6 column)
+        ncols = len(t[0])
+        E = _matrix_entries([t[k][c] for k in range(4) for c in range(3, ncols)])
+        need = [(0, 2), (1, 2), (2, 2)] + ([(0, 1), (1, 1), (2, 1), (0, 0), (1, 0), (2, 0)] if ncols >= 6 else [])
+        if not ctx.check(E is not None and all(x in E for x in need), 'R02.7', name + '/rotation-entries', b.where(0), b.path,
+                         'the entries of the requested rotation matrix read by the wrist formulas could not be identified', found=sorted(E) if E else None):
+            continue
+        for k in range(4):
+            so = spec_orientation({x: E[x] for x in E}, t[k][0], t[k][1], t[k][2]) if ncols >= 6 else None
+            if so is None:
+                E5 = dict(E)
+                for x in need[:0]:
+                    pass
+                E5.update({x: E[(0, 2)] for x in [(0, 1), (1, 1), (2, 1), (0, 0), (1, 0), (2, 0)] if x not in E5})
+                so = spec_orientation(E5, t[k][0], t[k][1], t[k][2])
+            for c, sp in zip(range(3, min(ncols, 6)), so):
+                ok = (rg.nf(algebra.canon(sp)) - rg.nf(t[k][c])).is_zero()
+                ctx.check(ok, 'R02.7', '%s/theta%d/branch%d' % (name, c + 1, k), b.where(0), b.path,
+                          'theta%d of branch %d is not the OPW closed form' % (c + 1, k), found=show(t[k][c], maxdepth=5), expected=show(sp, maxdepth=5), detail='equals the published formula')
 
     # ---- R02.3 template agreement
     for b, cols in ((six, (3, 4, 5)), (five, (3, 4))):
